@@ -349,3 +349,60 @@ Record Inv (s : state) : Prop := {
   (* scope of the partial theorem *)
   inv_scope : forall t, t < s_n s -> core_pc (t_pc (s_thr s t)) = true /\ t_mex (s_thr s t) = false
 }.
+
+(* ------------------------------------------------------------------ what the property asks of every state *)
+(* a result kept by the application *)
+Definition result_of (s : state) (t : nat) (r : res) : Prop := t < s_n s /\ In r (t_slots (s_thr s t)).
+
+Record Safe (s : state) : Prop := {
+  (* lock discipline: the lock is held exactly by a thread inside a critical region *)
+  safe_lock : forall t, t < s_n s -> (s_lock s = Some t <-> holds (t_pc (s_thr s t)) = true);
+  (* all threads that asked for the same row (in the same purge epoch) hold the same object *)
+  safe_ident : forall t t' i o o' e, result_of s t (RObj o i e) -> result_of s t' (RObj o' i e) -> o = o';
+  (* a still referenced, unpurged object is the one the cache has for its row *)
+  safe_reach : forall t i o, result_of s t (RObj o i (s_epoch s i)) -> registered s i o;
+  (* no exception other than the documented not-found *)
+  safe_noexc : forall t x, result_of s t (RExc x) -> x = NotFound
+}.
+
+Definition all_finished (s : state) : Prop := forall t, t < s_n s -> finished (s_thr s t) = true.
+
+(* the full statements (false for the unchanged code: see the refuted witnesses) *)
+Definition C09_inv_full : Prop :=
+  forall freq frac rows progs s, reach (init freq frac rows progs) s -> Safe s.
+Definition C09_quiescent_full : Prop :=
+  forall freq frac rows progs s, reach (init freq frac rows progs) s -> all_finished s ->
+    s_lock s = None /\
+    (forall t x, result_of s t (RExc x) -> x = NotFound) /\
+    (forall t t' i o o' e, result_of s t (RObj o i e) -> result_of s t' (RObj o' i e) -> o = o') /\
+    (forall t i o, result_of s t (RObj o i (s_epoch s i)) ->
+       dget (s_strong s) i = Some o \/ dget (s_weak s) i = Some o).
+
+(* computable detectors used by the witnesses *)
+Definition res_list (s : state) : list res := flat_map (fun t => t_slots (s_thr s t)) (seq 0 (s_n s)).
+Definition two_objects (s : state) : bool :=
+  existsb (fun a => existsb (fun b =>
+    match a, b with
+    | RObj o i e, RObj o' i' e' => Z.eqb i i' && Nat.eqb e e' && negb (Nat.eqb o o')
+    | _, _ => false
+    end) (res_list s)) (res_list s).
+Definition bad_exception (s : state) : bool :=
+  existsb (fun a => match a with RExc x => negb (exn_eqb x NotFound) | _ => false end) (res_list s).
+Definition lost_object (s : state) : bool :=
+  existsb (fun a => match a with
+                    | RObj o i e => Nat.eqb e (s_epoch s i) &&
+                                    negb (match dget (s_strong s) i with Some o' => Nat.eqb o o' | None => false end) &&
+                                    negb (match dget (s_weak s) i with Some o' => Nat.eqb o o' | None => false end)
+                    | _ => false end) (res_list s).
+Definition all_finished_b (s : state) : bool := forallb (fun t => finished (s_thr s t)) (seq 0 (s_n s)).
+
+(* a run all of whose steps pass the guard *)
+Fixpoint grun (s : state) (sched : list nat) : option state :=
+  match sched with
+  | [] => Some s
+  | t :: r => if guard s t then match step s t with Some s' => grun s' r | None => None end else None
+  end.
+(* the object results of the threads, as (thread, object, row, epoch) *)
+Definition obj_results (s : state) : list (nat * nat * Z * nat) :=
+  flat_map (fun t => flat_map (fun r => match r with RObj o i e => [(t, o, i, e)] | _ => [] end) (t_slots (s_thr s t)))
+           (seq 0 (s_n s)).
